@@ -100,7 +100,7 @@ func (r *Range) M__getitem__(key Object) (Object, error) {
 func (r *Range) M__iter__() (Object, error) {
 	return &RangeIterator{
 		Range: *r,
-		Index: r.Start,
+		Index: 0,
 	}, nil
 }
 
@@ -123,15 +123,13 @@ func (it *RangeIterator) M__iter__() (Object, error) {
 
 // Range iterator next
 func (it *RangeIterator) M__next__() (Object, error) {
-	r := it.Index
-	if it.Step >= 0 && r >= it.Stop {
+	// Index counts the items produced: the range's Length, not its Stop,
+	// bounds the iteration (Stop may not be representable for huge steps)
+	if it.Index >= it.Length {
 		return nil, StopIteration
 	}
-
-	if it.Step < 0 && r <= it.Stop {
-		return nil, StopIteration
-	}
-	it.Index += it.Step
+	r := computeItem(&it.Range, it.Index)
+	it.Index++
 	return r, nil
 }
 
@@ -186,49 +184,18 @@ func computeBoundIndex(index, length Int) Int {
 }
 
 func computeRangeSlice(r *Range, s *Slice) (Object, error) {
-	start, err := getIndexWithDefault(s.Start, 0)
+	// Indices into the range exactly as for any other sequence
+	start, _, step, sliceLength, err := s.GetIndices(int(r.Length))
 	if err != nil {
 		return nil, err
 	}
-	stop, err := getIndexWithDefault(s.Stop, r.Length)
-	if err != nil {
-		return nil, err
-	}
-	step, err := getIndexWithDefault(s.Step, 1)
-	if err != nil {
-		return nil, err
-	}
-
-	if step == 0 {
-		return nil, ExceptionNewf(ValueError, "slice step cannot be zero")
-	}
-	start = computeNegativeIndex(start, r.Length)
-	stop = computeNegativeIndex(stop, r.Length)
-
-	start = computeBoundIndex(start, r.Length)
-	stop = computeBoundIndex(stop, r.Length)
-
-	startIndex := computeItem(r, start)
-	stopIndex := computeItem(r, stop)
-	stepIndex := step * r.Step
-
-	var sliceLength Int
-	if start < stop {
-		if stepIndex < 0 {
-			startIndex, stopIndex = stopIndex-1, startIndex-1
-		}
-	} else {
-		if stepIndex < 0 {
-			startIndex, stopIndex = stopIndex+1, startIndex+1
-		}
-	}
-	sliceLength = computeRangeLength(startIndex, stopIndex, stepIndex)
-
+	startIndex := computeItem(r, Int(start))
+	stepIndex := Int(step) * r.Step
 	return &Range{
 		Start:  startIndex,
-		Stop:   stopIndex,
+		Stop:   startIndex + Int(sliceLength)*stepIndex,
 		Step:   stepIndex,
-		Length: sliceLength,
+		Length: Int(sliceLength),
 	}, nil
 }
 
